@@ -129,6 +129,7 @@ type c03World struct {
 	slowDuties bool                    // after the reorg the beacon node takes two seconds over a duty request; the reorg event arrives one second before the end of its slot
 	fastTrack  bool                    // the controller starts a slot's attestations early when the slot's block arrives (vouch's default)
 	evAt       map[phase0.Slot][]int64 // instants at which head events for a slot were delivered
+	lateHead   bool                    // head events arrive 11.7 s into their slot: the fast-track grace (0.5 s) ends in the next slot
 	waited     bool                    // vouch was started before genesis and waited for it (controller option WaitedForGenesis): the start instant is genesis itself
 	attestDur  int64                   // how long the attester stand-in takes (0: returns at once)
 	inflight   map[phase0.Slot]int     // attestations being carried out by the stand-in
@@ -274,6 +275,18 @@ func c03Units(tier string) []hx.Unit {
 			units = append(units, u)
 		}
 	}
+	// head events that arrive in the last third of a second of their slot: the fast-track grace ends in the next slot
+	for _, ap := range [][2]string{{"E", "E"}, {"E", "B"}} {
+		ap := ap
+		w := &c03World{}
+		u := hx.Unit{Name: fmt.Sprintf("C03/controller/late-head/att%s%s", ap[0], ap[1]), Cfg: mc.Config{Deviation: true, Horizon: int64(40 * c03SlotDur)}}
+		u.Body = func() {
+			w.lateHead = true
+			c03Body(w, 0, ap, [2]string{"A", "A"}, false)
+		}
+		u.Check = func(r *mc.Result) mc.Verdict { return c03Check(w, r) }
+		units = append(units, u)
+	}
 	// started before genesis: vouch waits and is started at genesis itself, with the controller told so; the duties
 	// of the first slot are then owed a job like any other slot's
 	for _, ap := range [][2]string{{"E", "E"}, {"A", "A"}} {
@@ -332,8 +345,8 @@ func c03Units(tier string) []hx.Unit {
 }
 
 func c03Body(w *c03World, startAt int64, ap, pp [2]string, windowed bool) {
-	slow, waited := w.slowDuties, w.waited
-	*w = c03World{attKinds: ap, propKinds: pp, startAt: startAt, reorgAt: -1, slowDuties: slow, waited: waited}
+	slow, waited, late := w.slowDuties, w.waited, w.lateHead
+	*w = c03World{attKinds: ap, propKinds: pp, startAt: startAt, reorgAt: -1, slowDuties: slow, waited: waited, lateHead: late}
 	ctx, cancel := mcontext.WithCancel(context.Background())
 	defer cancel()
 	ct := newChainTime(-(int64(c03Epoch0*c03SPE)*int64(c03SlotDur) + startAt), c03SlotDur, c03SPE)
@@ -429,10 +442,14 @@ func c03Body(w *c03World, startAt int64, ap, pp [2]string, windowed bool) {
 			// other dependent roots there
 			kind = "same"
 		}
-		at := w.slotStart(phase0.Slot(c03Epoch0*c03SPE+slotOff)) + secs*int64(time.Second)
+		offNs := secs * int64(time.Second)
+		if w.lateHead {
+			offNs = int64(11700 * time.Millisecond)
+		}
+		at := w.slotStart(phase0.Slot(c03Epoch0*c03SPE+slotOff)) + offNs
 		if at <= mc.Now() {
 			slotOff++
-			at = w.slotStart(phase0.Slot(c03Epoch0*c03SPE+slotOff)) + secs*int64(time.Second)
+			at = w.slotStart(phase0.Slot(c03Epoch0*c03SPE+slotOff)) + offNs
 		}
 		mc.Sleep(at - mc.Now())
 		// crossing an epoch boundary shifts the roots: what was current becomes previous
